@@ -26,7 +26,7 @@ class VStyle(gen.Style):
         "this": [True],
         "indent": ["\t", " ", ""],
         "eol": ["\n\n", "  \n", " # trailing comment\n", "\n# a comment line\n", "\n\n   \n"],
-        "listsep": [",\n        ", " , ", ", # c\n    "],
+        "listsep": [",\n        ", " , ", ", # c\n    ", "\n        , ", " # c\n    , ", "\n,\n"],
         "lbr": ["[\n        ", "[", "[ # c\n        "],
         "rbr": ["\n    ]", "]"],
         "kw": ["UPPER"],
